@@ -414,6 +414,18 @@ class H:
         return bool(w) and w[0]['v'] == call.get('val')
 
     @staticmethod
+    def has_combining(e):
+        """some text object of the event's view holds a combining mark / ZWJ / variation selector"""
+        views = [e.get('obs', {}).get('view') or [], e.get('view') or []]
+        for c in e.get('calls') or []:
+            views += [c.get('before') or [], c.get('after') or []]
+        for v in views:
+            for o in v:
+                if any(t in ('cacute', 'zwj', 'vs16') for t in (o.get('text') or [])):
+                    return True
+        return False
+
+    @staticmethod
     def list_batch_with_later_insert(e):
         seen = set()
         for p in e.get('patches') or []:
